@@ -1408,7 +1408,7 @@ func (x *g) stmt(d int) string {
 	if d <= 0 {
 		return x.declOrSimple(d)
 	}
-	k := x.n("stmtkind", 30)
+	k := x.n("stmtkind", 32)
 	if x.cfg.ScopeMode && x.chance("scopeheavy", 2) {
 		// C02: favour constructs that open scopes and declare names
 		k = []int{17, 18, 19, 24, 21, 10, 15, 20, 23, 22, 14, 0, 17, 24}[x.n("scopekind", 13)]
@@ -1466,8 +1466,93 @@ func (x *g) stmt(d int) string {
 		return x.throwInTry(d)
 	case 29:
 		return x.objMutate(d)
+	case 30, 31:
+		if c := x.corner(d); c != "" {
+			return c
+		}
 	}
 	return x.declOrSimple(d)
+}
+
+// corner: statements around rarely used but valid syntax, built from templates whose holes are filled with generated
+// expressions: E a number expression, S a string literal, N a number literal, V a fresh variable (declared by the
+// template). Every template is self-contained (own block or function) and shows its effects through $.
+func (x *g) corner(d int) string {
+	type tmpl struct {
+		es   int
+		feat string
+		t    string
+	}
+	ts := []tmpl{
+		{2021, "logical-assignment", "{let V=N;V||=(E,E);$(V);V&&=(E,E);$(V);V??=E;if(V||=E){}$(V);void(V&&=E);$(V)}"},
+		{2021, "logical-assignment", "{let V=0,W=null;$(V||=E,W??=(E,E),V&&=E);$(V,W)}"},
+		{5, "string-escapes", "$(S+S,\"\\0\"+\"0\",\"a\\0\"+\"1\",\"\\1\"+\"2\",\"\\12\"+\"3\",\"\\377\",\"\\200x\")"},
+		{2015, "string-escapes-unicode", "$(\"\\u005c\",\"\\u{5c}n\",\"\\u{5c}\\u{5c}\",`\\u005c`,\"\\u0022\",'\\u0027',`\\u0024{V}`,\"\\x5c\",\"\\134\")"},
+		{2020, "bigint-literals", "$(typeof 0x10000000000n,0x10000000000n===1099511627776n,0b1111111111111111111111111111111111111111111111111111111111111111111n>0n,0o7777777777777777777777n>0n,0xffn,!0n,!12n)"},
+		{2021, "numeric-separators", "$((1_0.5_0).toString(),(1_0e1_0).toString(),(1_000).toString(),!0.0_0,!1_0,1_0.0_1+E)"},
+		{5, "underflow-literal", "$(1e-400?1:2,!1e-400,0e5?1:2,1e400?1:2,0.0e-3?E:E)"},
+		{2022, "class-expression-operand", "(class{static s=0}).s||$(E);(class{static s=1}).s&&$(E);try{(class{}).x=E;$(1)}catch(e){$(e)}"},
+		{2022, "class-expression-effects", "{let V=class{static x=$(E)}}void class{static{$(E)}};if(class extends $(Object){}){}(function(a=class{static{$(E)}}){})();$(E)"},
+		{5, "same-constant-null-check", "(function(V){$(V===null||V===null,V===undefined||V===undefined,V!==undefined&&V!==undefined,V===null||V===undefined,V!==null&&V!==void 0)})(UNDEFNULL)"},
+		{5, "bang-comment-block", "{var V=E;if(V>1e9){/*!c*/}$(1);while(V>1e9){/*!c*/}$(2);if(V){/*!c*/}else{$(3)}do{/*!c*/}while(V>1e9);$(4)}"},
+		{5, "labelled-function-block", "if(E){l:function lf(){}}"},
+		{2015, "shorthand-globals", "$({undefined},{Infinity},{NaN})"},
+		{5, "shadowed-globals", "$((function(undefined){return undefined})(E),(function(NaN){return NaN?1:2})(E),(function(undefined,a){return a===null||a===undefined})(E,E),(function(Infinity){return Infinity})(E))"},
+		{5, "string-no-directive", "(function(){\"use\\x20strict\";return this===void 0})()"},
+		{2015, "object-method-outer-ref", "(function(V){$(({m(){return [V]},get g(){return {V}}}).m())})(E)"},
+		{5, "const-cond-reference", "(function(o){$((1?o.f:0)(),typeof(1?o.f:0))})({f:function(){return this===void 0||this===globalThis}})"},
+		{5, "callee-before-condition", "(function(){var f=function(){return 1};function c(){f=function(){return 2};return E}$(c()?f(1):f(2))})()"},
+		{2020, "generated-optional-chain", "(function(a){try{$((a==null?undefined:a.b).c)}catch(e){$(\"T\")}try{$((a==null?undefined:a.b)())}catch(e){$(\"T\")}})(UNDEFNULL)"},
+		{2020, "math-trunc-coalesce", "(function(a,b){$(Math.pow(a??b,2))})(E,E)"},
+		{5, "arguments-var", "(function(){var arguments;return typeof arguments})(E)"},
+		{2015, "class-name-binding", "(function(){var D=E;var C=class D{m(){return typeof D}};$(new C().m())})()"},
+		{2015, "param-later-param", "(function(){var q=E;function g(a=()=>q,q){return[a(),q]}$(g(void 0,E))})()"},
+		{5, "catch-var-same-name", "(function(){try{throw E}catch(e){var e=E}return e})()"},
+		{2022, "static-block-var", "{var sbv=E;class SK{static{var sbv=E}}$(sbv)}"},
+		{5, "with-builtins", "with({undefined:E,Infinity:E})$(undefined,Infinity)"},
+	}
+	t := ts[x.n("corner", len(ts)-1)]
+	if !x.es(t.es) || x.strict && strings.HasPrefix(t.t, "with") || x.cfg.Goal != "sloppy" && strings.HasPrefix(t.t, "with") {
+		return ""
+	}
+	if (t.feat == "with-builtins" || t.feat == "arguments-var" || t.feat == "class-name-binding" || t.feat == "param-later-param" || t.feat == "catch-var-same-name" || t.feat == "static-block-var" || t.feat == "object-method-outer-ref" || t.feat == "const-cond-reference" || t.feat == "callee-before-condition" || t.feat == "generated-optional-chain") && x.guard("noKnownCorner:"+t.feat) {
+		x.prog.Excluded["noKnownCorner:"+t.feat]++
+		return ""
+	}
+	if t.feat == "labelled-function-block" && (x.strict || x.cfg.Goal != "sloppy") {
+		return "" // labelled function declarations are sloppy mode only
+	}
+	if t.feat == "string-escapes" && (x.strict || x.cfg.Goal != "sloppy") {
+		return "" // legacy octal escapes
+	}
+	if t.feat == "string-no-directive" && (x.strict || x.cfg.Goal != "sloppy") {
+		return ""
+	}
+	x.feat("corner:" + t.feat)
+	out := t.t
+	x.counter++
+	out = strings.ReplaceAll(out, "V", fmt.Sprintf("cv%d", x.counter))
+	out = strings.ReplaceAll(out, "W", fmt.Sprintf("cw%d", x.counter))
+	for strings.Contains(out, "UNDEFNULL") {
+		out = strings.Replace(out, "UNDEFNULL", x.pick("undefnull", []string{"null", "void 0", "0", "\"\""}), 1)
+	}
+	for strings.Contains(out, "E") {
+		i := strings.Index(out, "E")
+		// only a hole when it stands alone
+		if i > 0 && (out[i-1] == '_' || out[i-1] >= 'a' && out[i-1] <= 'z' || out[i-1] >= 'A' && out[i-1] <= 'Z' || out[i-1] >= '0' && out[i-1] <= '9') || i+1 < len(out) && (out[i+1] >= 'a' && out[i+1] <= 'z' || out[i+1] >= 'A' && out[i+1] <= 'Z' || out[i+1] >= '0' && out[i+1] <= '9') {
+			out = out[:i] + "\x00" + out[i+1:]
+			continue
+		}
+		out = out[:i] + x.par(x.numLeaf(), 1) + out[i+1:]
+	}
+	out = strings.ReplaceAll(out, "\x00", "E")
+	for strings.Contains(out, "S+S") {
+		out = strings.Replace(out, "S+S", x.strLit()+"+"+x.strLit(), 1)
+	}
+	for strings.Contains(out, "=N;") {
+		out = strings.Replace(out, "=N;", "="+x.numLit()+";", 1)
+	}
+	return out
 }
 
 func (x *g) declOrSimple(d int) string {
